@@ -5,7 +5,8 @@ import enf_corr as ec
 TRANSLATORS = []
 LEVEL = "proof"
 ASSUMPTIONS = [
-    "failure kinds: the adapter raises after delivering any prefix of k rules; a delivered grouping rule is shorter than the role definition (raises while building role links); failures while ordering rules (a priority that cannot be compared, a cycle in the subject hierarchy) are not in the Lean model: they are judged on the implementation only (state before = state after)",
+    "failure kinds in the Lean model: the adapter raises after delivering any prefix of k rules; a failure WHILE ORDERING the delivered rules (Model/LoadOrd.lean loadOrd: a priority field that cannot be compared with the others -> TypeError, a rule without the field a sort key reads -> IndexError, a grouping rule the subject hierarchy cannot use, a cyclic subject hierarchy); a delivered grouping rule shorter than the role definition (raises while building role links from the ORDERED rules, rollback relink)",
+    "ordering models in the tie: RBAC with an explicit priority column at index 0 (p = priority, sub, obj, act, eft) and RBAC with subjectPriority (no p_dom token); priority fields are ASCII strings (str.isdigit / int accept further Unicode digits, on some of which int raises ValueError: outside the model); follow-up calls on a priority model exclude adds / updates of p rules (they insert by priority: C07)",
     "the state before the reload is coherent (C04's invariant): the rollback rebuilds links from the old policy",
     "conditional role managers are outside the model (rollback does not rebuild them: recorded observation F19)",
     "file adapters (FileAdapter / FilteredFileAdapter; file gone, or a grouping line shorter than the role definition in the file) are judged on the implementation only: policy, queries and is_filtered() before = after; F26b (open) is the is_filtered() flip when the enforcer rejects a completely read file",
@@ -93,6 +94,259 @@ e = priority(p.eft) || deny
 m = g(r.sub, p.sub) && r.obj == p.obj && r.act == p.act
 """
 SUBJ_G = PRIO_G.replace("p = priority, sub, obj, act, eft", "p = sub, obj, act, eft").replace("priority(p.eft) || deny", "subjectPriority(p_eft) || deny")
+
+
+# ------------------------------------------------------------------ ordered reloads (priority / subject-priority models)
+# The ordering step of load_policy inside the Lean model (Model/LoadOrd.lean `loadOrd`, driver family `enfo`).
+
+ec.TEXT["prio"] = PRIO_G
+ec.TEXT["subj"] = SUBJ_G
+ec.COUNTS["prio"] = (2, 0)
+ec.COUNTS["subj"] = (2, 0)
+ORD_SHAPES = ("prio", "subj")
+ORD_SUBS = ["alice", "bob", "admin", "root"]
+
+
+class OrdConfig(ec.Config):
+    """an enforcer whose model orders its rules on load_policy: shape `prio` (explicit priority column, index 0) or `subj`
+    (subjectPriority effect); driver family `enfo`"""
+
+    def __init__(self, shape, initial, is_async=False):
+        super().__init__(shape, adapter=True, watcher=None, initial=initial, is_async=is_async)
+        self.requests = [[s, o, "read"] for s in ORD_SUBS for o in ("data1", "data2")]
+
+    def init_line(self):
+        return "\t".join(["initord", self.shape, "T", ec.enc_rules(self.initial.get("p", [])), ec.enc_rules(self.initial.get("g", []))])
+
+
+def ord_universe(shape):
+    G = [["alice", "admin"], ["bob", "admin"], ["admin", "root"]]
+    if shape == "prio":
+        P = [["10", "admin", "data1", "read", "deny"], ["1", "alice", "data1", "read", "allow"], ["2", "bob", "data2", "read", "deny"],
+             ["10", "root", "data2", "read", "allow"], ["2", "alice", "data2", "read", "allow"], ["1", "bob", "data1", "read", "deny"]]
+    else:
+        P = [["root", "data1", "read", "deny"], ["admin", "data1", "read", "allow"], ["alice", "data2", "read", "deny"],
+             ["admin", "data2", "read", "allow"], ["bob", "data1", "read", "deny"], ["alice", "data1", "read", "allow"]]
+    return P, G
+
+
+def ord_norm_ret(ret):
+    """exceptions of the ordering step -> the model's names"""
+    if ret.startswith("!other:TypeError:'<' not supported between"):
+        return "!TypeError"
+    if ret.startswith("!other:RuntimeError:policy g expect 2 more params"):
+        return "!gShort"
+    if ret.startswith("!other:RuntimeError:cycle dependency in subject hierarchy"):
+        return "!cycle"
+    return ret
+
+
+def ord_ops(shape):
+    """follow-up calls whose in-memory part does not depend on the order (adds / updates of `p` rules in a model with a
+    priority column insert by priority: C07's subject)"""
+    P, G = ord_universe(shape)
+    ops = []
+    for r in G:
+        ops += [("add", "g", r), ("remove", "g", r)]
+    ops += [("add", "g", ["bob", "root"]), ("remove", "p", P[0]), ("remove", "p", P[1]), ("removemany", "p", [P[2], P[3]]), ("removefiltered", "p", OFF[shape], ["alice"]),
+            ("removefiltered", "g", 1, ["admin"]), ("removemany", "g", [G[0], G[1]]), ("addmany", "g", [G[0], G[2]]), ("save",), ("load", None), ("build",), ("clear",),
+            ("delete_roles_for_user", "alice"), ("removeread", "g")]
+    if shape == "subj":
+        ops += [("add", "p", P[0]), ("add", "p", ["bob", "data2", "read", "allow"]), ("addmany", "p", [P[1], P[2]])]
+    return ops
+
+
+OFF = {"prio": 1, "subj": 0}
+
+
+def ord_stores(shape, rng, deep):
+    """(label, store): stores that order fine, and stores that fail to order with the offending rule at EACH position"""
+    P, G = ord_universe(shape)
+    out = []
+    perm = list(P)
+    rng.shuffle(perm)
+    out += [("fine", {"p": P, "g": G}), ("fine", {"p": P[::-1], "g": G[::-1]}), ("fine", {"p": perm, "g": [G[2], G[0]]}), ("fine", {"p": P[1:4], "g": []}),
+            ("fine", {"p": [], "g": G}), ("fine", {"p": [], "g": []})]
+    shortg = ["bob"]
+    base = P[:4]
+    if shape == "prio":
+        # priorities that are all non-numeric order fine (as strings); longer rules; ties (stability)
+        out.append(("fine-str", {"p": [["low"] + P[0][1:], ["high"] + P[1][1:], ["mid"] + P[2][1:], ["high"] + P[3][1:]], "g": G}))
+        out.append(("fine-str", {"p": [["urgent"] + P[0][1:]], "g": G}))
+        out.append(("fine", {"p": [["007"] + P[0][1:], ["7"] + P[1][1:], ["06"] + P[2][1:], ["7"] + P[3][1:], ["0"] + P[4][1:]], "g": G}))
+        bads = [["urgent"] + P[4][1:], ["1.5"] + P[4][1:], ["-1"] + P[4][1:], [""] + P[4][1:], []]
+        if not deep:
+            bads = [bads[0], bads[rng.randrange(1, 4)], bads[4]]
+        for bad in bads:
+            for pos in range(len(base) + 1):
+                out.append(("bad-p@%d" % pos, {"p": base[:pos] + [bad] + base[pos:], "g": G}))
+        # a rule without priority field AND an incomparable one; an ordering failure together with a short grouping rule
+        out.append(("bad-both", {"p": [base[0], ["urgent"] + P[4][1:], [], base[1]], "g": G}))
+        out.append(("bad-p+short-g", {"p": [base[0], ["urgent"] + P[4][1:], base[1]], "g": [G[0], shortg]}))
+        out.append(("bad-p+short-g", {"p": [base[0], []], "g": [shortg]}))
+        # ordering fine, linking fails (rollback relink)
+        for pos in range(len(G) + 1):
+            out.append(("short-g@%d" % pos, {"p": P[::-1], "g": G[:pos] + [shortg] + G[pos:]}))
+    else:
+        out.append(("fine", {"p": P, "g": [["alice", "admin", "d1"], ["admin", "root", "d1"], ["bob", "admin"]]}))  # a third field is read as a domain
+        out.append(("fine", {"p": P + [["nobody", "data1", "read", "allow"]], "g": [["alice", "bob"], ["bob", "admin"], ["admin", "root"]]}))
+        cyc = [[["admin", "alice"]], [["root", "alice"]], [["bob", "bob"]], [["root", "admin"]], [["alice", "bob"], ["bob", "alice"]]]
+        if not deep:
+            cyc = [cyc[0], cyc[2], cyc[rng.choice([1, 3, 4])]]
+        for extra in cyc:
+            for pos in range(len(G) + 1):
+                out.append(("cycle@%d" % pos, {"p": P, "g": G[:pos] + extra + G[pos:]}))
+        for pos in range(len(G) + 1):
+            out.append(("short-g@%d" % pos, {"p": P, "g": G[:pos] + [shortg] + G[pos:]}))
+        for pos in range(len(G) + 1):
+            out.append(("short-g@%d" % pos, {"p": P, "g": G[:pos] + [[]] + G[pos:]}))
+        for pos in range(len(base) + 1):
+            out.append(("bad-p@%d" % pos, {"p": base[:pos] + [[]] + base[pos:], "g": G}))
+        out.append(("cycle+short-g", {"p": P, "g": [["admin", "alice"], shortg] + G}))
+        out.append(("cycle+bad-p", {"p": [P[0], []], "g": [["admin", "alice"]] + G}))
+    return out
+
+
+def ord_expected(shape, store):
+    """the ordered list the PROPERTY demands of a successful reload, computed without the library: stable sort by the numeric
+    (or, all non-numeric, by the string) priority; subject models: the hierarchy levels by repeated removal of the subjects
+    nobody inherits from (None = the store does not order)"""
+    p, g = store["p"], store["g"]
+    if shape == "prio":
+        if any(len(r) < 1 for r in p):
+            return None
+        dig = [r[0].isdigit() for r in p]
+        if all(dig):
+            return sorted(p, key=lambda r: int(r[0]))
+        if not any(dig):
+            return sorted(p, key=lambda r: r[0])
+        return None
+    if any(len(r) < 2 for r in g) or any(len(r) < 1 for r in p):
+        return None
+    edges = [((r[2] if len(r) != 2 else "") + "::" + r[0], (r[2] if len(r) != 2 else "") + "::" + r[1]) for r in g]
+    nodes = {x for e in edges for x in e}
+    level, k = {}, 0
+    while edges:
+        parents = {e[1] for e in edges}
+        low = nodes - parents
+        if not low:
+            return None
+        for x in low:
+            level[x] = k
+        edges = [e for e in edges if e[0] not in low]
+        nodes -= low
+        k += 1
+    for x in nodes:
+        level[x] = k
+    return sorted(p, key=lambda r: level.get("::" + r[0], 0))
+
+
+def ord_judge_factory():
+    base = judge_factory()
+    stores = {}
+
+    def judge(res, cfg, hist, i, op, rec, model, case, queries):
+        key = id(hist)
+        if op[0] == "setstore":
+            stores[key] = op[1]
+        if op[0] != "load" and rec.get("fresh") is not None:
+            # a fresh enforcer RE-ORDERS the policy it is given, management calls do not: after further use its decisions are
+            # no oracle (role queries are); decisions are compared with the Lean model, whose oracle keeps the order
+            rec = dict(rec)
+            rec["fresh"] = [a if q[0] == "enforce" else f for q, a, f in zip(queries, rec["answers"], rec["fresh"])]
+        ok = base(res, cfg, hist, i, op, rec, model, case, queries)
+        if ok and op[0] == "load":
+            st = {"p": rec["store"]["p"], "g": rec["store"]["g"]}
+            want = ord_expected(cfg.shape, st)
+            short = any(len(r) < 2 for r in st["g"])
+            if rec["ret"].startswith("!"):
+                if want is not None and not short and op[1] is None:
+                    res.violation({"signature": f"C11:{cfg.shape}:ordered:refused", "what": f"{cfg.shape}: load_policy raised {rec['ret']} on a store that orders and links fine {st}", "case": case, "expected": want, "observed": rec["ret"], "model_text": ec.TEXT[cfg.shape]})
+                    ok = False
+            else:
+                if want is None:
+                    res.violation({"signature": f"C11:{cfg.shape}:ordered:accepted", "what": f"{cfg.shape}: load_policy returned although the delivered rules cannot be ordered: {st}; policy now {rec['pol']['p']}", "case": case, "expected": "raises, state as before", "observed": rec["pol"]["p"], "model_text": ec.TEXT[cfg.shape]})
+                    ok = False
+                elif rec["pol"]["p"] != want:
+                    res.violation({"signature": f"C11:{cfg.shape}:ordered:order", "what": f"{cfg.shape}: a successful load_policy installed {rec['pol']['p']}, not the delivered rules in the order the model demands {want}", "case": case, "expected": want, "observed": rec["pol"]["p"], "model_text": ec.TEXT[cfg.shape]})
+                    ok = False
+                elif rec["pol"]["g"] != st["g"]:
+                    res.violation({"signature": f"C11:{cfg.shape}:ordered:grouping", "what": f"{cfg.shape}: a successful load_policy installed grouping rules {rec['pol']['g']}, delivered {st['g']}", "case": case, "expected": st["g"], "observed": rec["pol"]["g"], "model_text": ec.TEXT[cfg.shape]})
+                    ok = False
+        return ok
+
+    return judge
+
+
+def ord_gen(ctx, deep):
+    rng = ctx["rng"]
+    jobs = []
+    labels = {}
+    for is_async in (False, True):
+        for shape in ORD_SHAPES:
+            P, G = ord_universe(shape)
+            ops = ord_ops(shape)
+            inits = [{"p": [P[3], P[1], P[0], P[4]], "g": G, "g2": []}, {"p": P[:2], "g": G[:1], "g2": []}]
+            if deep:
+                inits.append({"p": [], "g": [], "g2": []})
+            for ii, init in enumerate(inits):
+                for label, st in ord_stores(shape, rng, deep):
+                    st = {"p": st["p"], "g": st["g"], "g2": []}
+                    total = len(st["p"]) + len(st["g"])
+                    ks = [None] + ([0, total - 1] if (deep or (ii == 0 and rng.random() < 0.5)) and total else [])
+                    for k in ks:
+                        cfg = OrdConfig(shape, init, is_async)
+                        for _ in range(1 if not deep else 3):
+                            pre = [rng.choice(ops) for _ in range(rng.randint(0, 2))]
+                            post = [rng.choice(ops) for _ in range(2)]
+                            h = pre + [("setstore", st), ("load", k)] + post
+                            jobs.append((cfg, h))
+                            labels[id(h)] = label
+    return jobs, labels
+
+
+def run_ord_configs(res, jobs, judge, labels=None, procs=12):
+    """ec.run_configs for driver family `enfo` (same comparison: results, policies IN ORDER, adapter calls, ~40 queries)"""
+    import multiprocessing as mp
+
+    if not jobs:
+        return
+    lines, metas = [], []
+    qs = ec.query_set(jobs[0][0])
+    for cfg, hist in jobs:
+        ll, idx = ec.lean_history(cfg, hist, qs)
+        # after the history: what the ordering step makes of the store, model vs independent spec
+        off = len(lines)
+        lines.extend(ll)
+        lines.append("q\torder")
+        metas.append((off, len(lines), idx))
+    answers = common.run_driver("enfo", lines)
+    flat = [(cfg, [h], qs, True, None) for cfg, h in jobs]
+    if len(jobs) < 64:
+        outs = [ec._worker(a) for a in flat]
+    else:
+        with mp.Pool(procs) as pool:
+            outs = pool.map(ec._worker, flat, chunksize=max(1, len(flat) // (procs * 8)))
+    for (cfg, hist), out, (off, end, idx) in zip(jobs, outs, metas):
+        ans = answers[off:end]
+        for rec in out[0]:
+            rec["ret"] = ord_norm_ret(rec["ret"])
+        m, s = common.parse_ms(ans[-1])
+        if m != s:
+            res.model_vs_spec.append({"what": f"ordering step: model {m} vs spec {s}", "history": [list(o) for o in hist]})
+        ec.compare_history(res, cfg, hist, out[0], ans[:-1], idx, qs, judge)
+        res.nontrivial.add(hash((cfg.key(), repr(hist))))
+        lab = (labels or {}).get(id(hist))
+        if lab:
+            li = next(i for i, o in enumerate(hist) if o[0] == "setstore") + 1
+            res.count(f"stream:ordered-reload:{cfg.shape}:{lab.split('@')[0]}:{out[0][li]['ret'] if out[0][li]['ret'].startswith('!') else 'loaded'}")
+    k = len(jobs) // 2
+    res.sample({"config": {"shape": jobs[k][0].shape, "async": jobs[k][0].is_async, "initial": jobs[k][0].initial}, "history": [list(o) for o in jobs[k][1][:6]]})
+
+
+def ordered_reload_stream(ctx, res, deep):
+    jobs, labels = ord_gen(ctx, deep)
+    run_ord_configs(res, jobs, ord_judge_factory(), labels)
 
 
 def ordering_failure_stream(ctx, res, deep):
@@ -263,6 +517,7 @@ def run(ctx):
     stages = [False] if not ctx["deep"] else ([True] if ctx["proof_ok"] else [False, True])
     for deep in stages:
         ec.run_configs(res, gen(ctx, deep), judge_factory(), fresh_oracle=True)
+        ordered_reload_stream(ctx, res, deep)
         ordering_failure_stream(ctx, res, deep)
         file_failure_stream(ctx, res, deep)
         if res.spec_violations:
@@ -271,7 +526,7 @@ def run(ctx):
         "RBAC and domain models, Enforcer and AsyncEnforcer, 3 initial policies x 5 adapter stores (two containing a grouping rule shorter than the "
         "role definition at different positions) x EVERY failure point k = 0..n of the delivering adapter (and no failure), preceded by 0-2 and "
         "followed by 3 random management calls; after every call policy and ~40 queries are compared with the state before (failed reload), "
-        "with a fresh enforcer (successful reload, later use) and with the Lean model; ordering-failure stream and file-failure stream (file gone / unparsable line after a prefix of good ones / short grouping line, FileAdapter and FilteredFileAdapter in 6 states) judged before = after incl. is_filtered(); non-trivial/distinct = (configuration, history)"
+        "with a fresh enforcer (successful reload, later use) and with the Lean model; ORDERED-RELOAD stream (driver family enfo, Lean loadOrd): explicit-priority and subject-priority RBAC models, Enforcer and AsyncEnforcer, 2-3 initial policies x stores that order fine (permutations, ties, all-string priorities, leading zeros, a third grouping field read as a domain) / fail to order with the offending rule at EVERY position (non-numeric priority among numeric ones, rule without priority field, rule without subject, grouping rule with < 2 fields, 1-/2-/3-cycles in the subject hierarchy), also combined with a short grouping rule and with adapter failure points k, preceded by 0-2 and followed by 2 management calls: results (exception kind), policies IN ORDER, adapter calls, ~40 decisions (priority effect) and role queries compared with the Lean model, with the state before (failed) and with the order demanded by an independent stable sort (successful), ordering step model vs mergeSort spec; ordering-failure stream and file-failure stream (file gone / unparsable line after a prefix of good ones / short grouping line, FileAdapter and FilteredFileAdapter in 6 states) judged before = after incl. is_filtered(); non-trivial/distinct = (configuration, history)"
     )
     res.exhaustive = True
     return res
@@ -300,14 +555,18 @@ def replay(obj):
         return before != after
     case = obj["case"]
     c = case["config"]
-    cfg = ec.Config(c["shape"], adapter=c["adapter"], watcher=c["watcher"], initial=c["initial"], is_async=c.get("async", False))
+    ordered = c["shape"] in ORD_SHAPES
+    cfg = OrdConfig(c["shape"], c["initial"], c.get("async", False)) if ordered else ec.Config(c["shape"], adapter=c["adapter"], watcher=c["watcher"], initial=c["initial"], is_async=c.get("async", False))
     hist = []
     for o in case["history"]:
         hist.append(tuple(o))
     r = common.Result()
-    j = judge_factory()
+    j = ord_judge_factory() if ordered else judge_factory()
     qs = ec.query_set(cfg)
     out = ec.run_history(cfg, hist, qs, fresh_oracle=True)
+    for rec in out:
+        if ordered:
+            rec["ret"] = ord_norm_ret(rec["ret"])
     for i, (op, rec) in enumerate(zip(hist, out)):
         j(r, cfg, hist, i, op, rec, None, case, qs)
     return bool(r.spec_violations)
